@@ -37,6 +37,9 @@ func zzEmittedMachine(rsize int, desc string) *procbuilder.Machine {
 		}
 	}
 	m.Program.Slocs = strings.Split(f[2], ",")
+	if len(f) > 4 && f[4] != "" {
+		m.Data.Vars = strings.Split(f[4], ",") // ROM data words, after the code
+	}
 	return m
 }
 
@@ -53,7 +56,6 @@ func zzU64(v interface{}) uint64 {
 	}
 	return 0
 }
-
 
 func zzWordOf(rsize int, v uint64) interface{} {
 	switch rsize {
